@@ -167,6 +167,10 @@ let run_assoc neg typed moveonly nopayload sh ak idA idB ops =
              let ((r, l'), nd) = GenNode.gen_uset_insert_hint_node d.l (Some (if nopayload then (fst e, zi 0) else e)) in
              d.l <- l'; (match r with Some e' -> pos_e e' | None -> "end") ^ "," ^ node_str nd end
            else if o = "xinsh" then (let (p, b, _) = insert_hint d (ai w 4) e in p ^ "," ^ (if b then "empty" else e2s e))
+           else if sh = OSet then begin   (* set::insert(node_type&&) regenerated from set.h: position, flag and returned node *)
+             let ((pz, b), nc) = GenCmp.gen_set_insert_node false d.l (Some e) in
+             ignore (insert d e);
+             string_of_z pz ^ "," ^ bstr b ^ "," ^ (if iz nc = 0 then "empty" else e2s e) end
            else let (p, b) = insert d e in
              if multi then p else p ^ "," ^ bstr b ^ "," ^ (if b then "empty" else e2s e)) end
     | "merge" -> if not (has_nodes sh) then "" else begin
@@ -198,7 +202,7 @@ let run_assoc neg typed moveonly nopayload sh ak idA idB ops =
         (if cs then let t = c.(0).aid in c.(0).aid <- c.(1).aid; c.(1).aid <- t);
         Printf.sprintf "a%da%d" c.(0).aid c.(1).aid end
     | "cmp" -> let l = c.(ai w 1 land 1) and r = c.(ai w 2 land 1) in
-      if ordered then String.concat "" (L.map bstr (Spec.cmp6 (unneg l.l) (unneg r.l)))   (* operator< compares elements, not through key_comp *)
+      if ordered then String.concat "" (L.map bstr (GenCmp.gen_cmp6_run (unneg l.l) (unneg r.l)))   (* relational operators regenerated from set.h / map.h; operator< compares elements, not through key_comp *)
       else let idz = (fun k -> k) in
         (* operator== regenerated from unordered_set.h / unordered_map.h / unordered_multimap.h *)
         let eq = (if sh = UMMap then GenEq.gen_ummap_eq_run idz l.mm r.mm
